@@ -9,7 +9,7 @@ EXTENDS TypedStream, TLCExt, Json, IOUtils
 CONSTANTS Depth, MinItems, Thin
 GenByteToks  == {<<>>, <<65>>, <<0, 255, 10>>, <<104, 101, 108, 108, 111>>}
 GenChunkSets == {<<1, 0>>, <<2, 3, -1>>, <<1, 4, 7, 0>>, <<5, -2>>, <<-3, -4>>, <<-5, 1, -6>>}
-GenLateW     == {a \in WActs : a.lim = -1 /\ a.tok # <<>> /\ a.tok[1] = 1 \/ a.t = "str" /\ a.lim = 3}
+GenLateW     == {a \in WActs : IF a.lim = 3 THEN TRUE ELSE a.lim = -1 /\ a.tok # <<>> /\ a.tok[1] = 1}
 
 Starts == {StartOf(items, i) - UOff : i \in hd..Len(items) + 1}
 GenRW  == {a \in RWActs : a.pos \in Starts \cup {1, ULen} /\ a.plen > 0 /\ a.tok[1] # 0}
